@@ -393,4 +393,42 @@ func runC27(c *Ctx) {
 		c.Check(loopDir != 0 && dir*loopDir == 1, r5, "fastForward: commit-change logs are replayed oldest first", loopPos, "sort direction x loop direction = ascending modification time",
 			fmt.Sprintf("the logs are replayed newest first (sort direction %+d, loop direction %+d): the passive side ends up with the OLDEST logged commit's handles and store info, replication is reported healthy and a later failover serves the stale state", dir, loopDir), nil)
 	}
+
+	r6 := c.Rule("R6", "the replication status is published whenever any of its fields changes: syncWithL2Cache skips the push only when ReplicationTrackedDetails.isEqual says the cached copy equals the global one, so isEqual must compare every field of the struct (LogCommitChanges tells the other processes to log their commits while a drive is reinstated)", 2)
+	{
+		fe := w.Fn("fs.ReplicationTrackedDetails.isEqual")
+		c.Analysed(fe)
+		st, _ := w.Object("fs", "ReplicationTrackedDetails").Type().Underlying().(*types.Struct)
+		if st == nil {
+			panic(undecided{"fs.ReplicationTrackedDetails is not a struct"})
+		}
+		einfo := fe.Pkg.TypesInfo
+		var missing []string
+		for i := 0; i < st.NumFields(); i++ {
+			fld := st.Field(i)
+			// compared: a `==` (or !=) whose two sides both select this field
+			found := false
+			ast.Inspect(fe.Body, func(x ast.Node) bool {
+				be, ok := x.(*ast.BinaryExpr)
+				if ok && (be.Op == token.EQL || be.Op == token.NEQ) && fieldOfSelector(einfo, be.X) == fld && fieldOfSelector(einfo, be.Y) == fld {
+					found = true
+				}
+				// whole-struct comparison `a == b`
+				if ok && (be.Op == token.EQL || be.Op == token.NEQ) {
+					if tx := einfo.TypeOf(be.X); tx != nil && types.Identical(tx.Underlying(), st) {
+						found = true
+					}
+				}
+				return true
+			})
+			if !found {
+				missing = append(missing, fld.Name())
+			}
+		}
+		c.Check(len(missing) == 0, r6, "ReplicationTrackedDetails.isEqual compares every field", fe.Decl.Pos(), fmt.Sprintf("%d fields compared", st.NumFields()),
+			fmt.Sprintf("isEqual ignores %v: a status that differs only there is treated as already published, so startLoggingCommitChanges' push is skipped, the other processes never see LogCommitChanges=true and the commits they make while the passive drive is copied are missing from the reinstated copy", missing), nil)
+		fs2 := w.Fn("fs.replicationTracker.syncWithL2Cache")
+		c.Analysed(fs2)
+		c.Check(w.Reaches(fs2, keyIn("fs.ReplicationTrackedDetails.isEqual")), r6, "syncWithL2Cache decides the push with isEqual", fs2.Decl.Pos(), "calls isEqual", "syncWithL2Cache no longer uses isEqual (rule has nothing to decide)", nil)
+	}
 }
